@@ -98,7 +98,7 @@ def seq_impl(steps):
 	out = []
 	for i, (route, nu, np_) in enumerate(steps):
 		if i == 0:
-			e = element_cls('Authorization')('Basic', {'username': nu, 'password': np_})
+			e = element_cls('Authorization')(('Basic', 'basic', 'BASIC', 'bAsIc')[(len(nu) + len(np_)) % 4], {'username': nu, 'password': np_})      # the scheme name in any letter case
 		elif route == 'params':
 			e.params['username'] = nu
 			e.params['password'] = np_
@@ -214,6 +214,15 @@ def oracle(case):
 		except Exception as ex:
 			return {'what': '%s: compose/parse raised %s: %s' % (name, exc_name(ex), ex), 'user': u.hex(), 'password': p.hex(), 'finding': None}
 		bad = []
+		# parsing the same field value again gives the composed credentials, whatever was done to the element of the first parsing
+		try:
+			first = element_cls(name).parse(value)
+			first.params['password'] = b'edited'
+			first.params['username'] = b'someone-else'
+			if impl_parse(name, value) != (u, p):
+				bad.append('a second parse() of the same field value returns %r after the first result was edited' % (impl_parse(name, value),))
+		except Exception as ex:
+			bad.append('parsing twice raised %s' % exc_name(ex))
 		# a second element built from the parameters of the first is a value of its own: changing it does not change the first
 		try:
 			e1 = element_cls(name)('Basic', {'username': u, 'password': p})
